@@ -18,12 +18,49 @@ func AssignValue(src, dst reflect.Value) error {
 	if err != nil {
 		return err
 	}
+	casted, err = fitType(dst.Elem().Type(), casted)
+	if err != nil {
+		return err
+	}
 	dst.Elem().Set(casted)
 	return nil
 }
 
+// fitType makes v assignable to t (named types of the kind castValue produced), or says why not
+func fitType(t reflect.Type, v reflect.Value) (reflect.Value, error) {
+	if !v.IsValid() {
+		return reflect.Zero(t), nil
+	}
+	if v.Type().AssignableTo(t) {
+		return v, nil
+	}
+	if v.Type().ConvertibleTo(t) && v.Kind() == t.Kind() {
+		return v.Convert(t), nil
+	}
+	return nilValue, fmt.Errorf("failed to assign %s to %s", v.Type(), t)
+}
+
 func castValue(t reflect.Type, v reflect.Value) (reflect.Value, error) {
+	if !v.IsValid() {
+		// null
+		return reflect.Zero(t), nil
+	}
+	if v.Kind() == reflect.Interface && v.IsNil() && t.Kind() != reflect.Interface {
+		return reflect.Zero(t), nil
+	}
 	switch t.Kind() {
+	case reflect.Ptr:
+		ev, err := castValue(t.Elem(), v)
+		if err != nil {
+			return nilValue, err
+		}
+		ev, err = fitType(t.Elem(), ev)
+		if err != nil {
+			return nilValue, err
+		}
+		p := reflect.New(t.Elem())
+		p.Elem().Set(ev)
+		return p, nil
 	case reflect.Int:
 		vv, err := castInt(v)
 		if err != nil {
@@ -107,6 +144,9 @@ func castValue(t reflect.Type, v reflect.Value) (reflect.Value, error) {
 }
 
 func castInt(v reflect.Value) (reflect.Value, error) {
+	if !v.IsValid() {
+		return reflect.ValueOf(int64(0)), nil // null
+	}
 	switch v.Type().Kind() {
 	case reflect.Int, reflect.Int8, reflect.Int16, reflect.Int32, reflect.Int64:
 		return v, nil
@@ -148,6 +188,9 @@ func castInt(v reflect.Value) (reflect.Value, error) {
 }
 
 func castUint(v reflect.Value) (reflect.Value, error) {
+	if !v.IsValid() {
+		return reflect.ValueOf(uint64(0)), nil // null
+	}
 	switch v.Type().Kind() {
 	case reflect.Int, reflect.Int8, reflect.Int16, reflect.Int32, reflect.Int64:
 		return reflect.ValueOf(uint64(v.Int())), nil
@@ -189,6 +232,9 @@ func castUint(v reflect.Value) (reflect.Value, error) {
 }
 
 func castString(v reflect.Value) (reflect.Value, error) {
+	if !v.IsValid() {
+		return reflect.ValueOf(""), nil // null
+	}
 	switch v.Type().Kind() {
 	case reflect.Int, reflect.Int8, reflect.Int16, reflect.Int32, reflect.Int64:
 		return reflect.ValueOf(fmt.Sprint(v.Int())), nil
@@ -226,6 +272,9 @@ func castString(v reflect.Value) (reflect.Value, error) {
 }
 
 func castBool(v reflect.Value) (reflect.Value, error) {
+	if !v.IsValid() {
+		return reflect.ValueOf(false), nil // null
+	}
 	switch v.Type().Kind() {
 	case reflect.Int, reflect.Int8, reflect.Int16, reflect.Int32, reflect.Int64:
 		switch v.Int() {
@@ -282,6 +331,9 @@ func castBool(v reflect.Value) (reflect.Value, error) {
 }
 
 func castFloat(v reflect.Value) (reflect.Value, error) {
+	if !v.IsValid() {
+		return reflect.ValueOf(float64(0)), nil // null
+	}
 	switch v.Type().Kind() {
 	case reflect.Int, reflect.Int8, reflect.Int16, reflect.Int32, reflect.Int64:
 		return reflect.ValueOf(float64(v.Int())), nil
@@ -323,6 +375,9 @@ func castFloat(v reflect.Value) (reflect.Value, error) {
 }
 
 func castArray(t reflect.Type, v reflect.Value) (reflect.Value, error) {
+	if !v.IsValid() {
+		return reflect.Zero(t), nil // null
+	}
 	kind := v.Type().Kind()
 	if kind == reflect.Interface {
 		return castArray(t, reflect.ValueOf(v.Interface()))
@@ -342,12 +397,19 @@ func castArray(t reflect.Type, v reflect.Value) (reflect.Value, error) {
 		if err != nil {
 			return nilValue, err
 		}
+		vv, err = fitType(t.Elem(), vv)
+		if err != nil {
+			return nilValue, err
+		}
 		ret.Index(i).Set(vv)
 	}
 	return ret, nil
 }
 
 func castSlice(t reflect.Type, v reflect.Value) (reflect.Value, error) {
+	if !v.IsValid() {
+		return reflect.Zero(t), nil // null
+	}
 	kind := v.Type().Kind()
 	if kind == reflect.Interface {
 		return castSlice(t, reflect.ValueOf(v.Interface()))
@@ -364,12 +426,19 @@ func castSlice(t reflect.Type, v reflect.Value) (reflect.Value, error) {
 		if err != nil {
 			return nilValue, err
 		}
+		vv, err = fitType(t.Elem(), vv)
+		if err != nil {
+			return nilValue, err
+		}
 		ret.Index(i).Set(vv)
 	}
 	return ret, nil
 }
 
 func castMap(t reflect.Type, v reflect.Value) (reflect.Value, error) {
+	if !v.IsValid() {
+		return reflect.Zero(t), nil // null
+	}
 	ret := reflect.MakeMap(t)
 	switch v.Type().Kind() {
 	case reflect.Map:
@@ -381,6 +450,12 @@ func castMap(t reflect.Type, v reflect.Value) (reflect.Value, error) {
 			}
 			value, err := castValue(t.Elem(), iter.Value())
 			if err != nil {
+				return nilValue, err
+			}
+			if key, err = fitType(t.Key(), key); err != nil {
+				return nilValue, err
+			}
+			if value, err = fitType(t.Elem(), value); err != nil {
 				return nilValue, err
 			}
 			ret.SetMapIndex(key, value)
@@ -398,6 +473,9 @@ func castMap(t reflect.Type, v reflect.Value) (reflect.Value, error) {
 }
 
 func castStruct(t reflect.Type, v reflect.Value) (reflect.Value, error) {
+	if !v.IsValid() {
+		return reflect.Zero(t), nil // null
+	}
 	ret := reflect.New(t).Elem()
 	switch v.Type().Kind() {
 	case reflect.Map:
@@ -414,6 +492,12 @@ func castStruct(t reflect.Type, v reflect.Value) (reflect.Value, error) {
 				value, err := castValue(field.Type, iter.Value())
 				if err != nil {
 					return nilValue, err
+				}
+				if value, err = fitType(field.Type, value); err != nil {
+					return nilValue, err
+				}
+				if !ret.FieldByName(fieldName).CanSet() {
+					continue // unexported
 				}
 				ret.FieldByName(fieldName).Set(value)
 			}
